@@ -157,6 +157,7 @@ type valCase struct {
 	V     interface{}     `json:"v"`
 	JTree *osmdoc.JNode   `json:"jtree"`
 	Unk   string          `json:"unk"`
+	Reps  int             `json:"reps"` // decode the text this many times in the same goroutine (0 = once)
 	Raw   json.RawMessage `json:"-"`
 }
 
@@ -221,6 +222,25 @@ func (customCodec) Unmarshal(data []byte, v interface{}) error {
 
 var topCodec jcodec = stdCodec{}
 
+// a panic inside the library is an outcome of the call ("panic: ..."), recorded like an error
+func safeMarshal(v interface{}) (b []byte, err error) {
+	defer func() {
+		if r := recover(); r != nil {
+			b, err = nil, fmt.Errorf("panic: %v", r)
+		}
+	}()
+	return topCodec.Marshal(v)
+}
+
+func safeUnmarshal(data []byte, v interface{}) (err error) {
+	defer func() {
+		if r := recover(); r != nil {
+			err = fmt.Errorf("panic: %v", r)
+		}
+	}()
+	return topCodec.Unmarshal(data, v)
+}
+
 func runC05(i int, line []byte) (res interface{}) {
 	var c valCase
 	vio.Must(json.Unmarshal(line, &c), "c05 case")
@@ -232,7 +252,7 @@ func runC05(i int, line []byte) (res interface{}) {
 		vio.Must(err, "root")
 		vio.Must(syms.Build(pv.Elem(), c.V), "build value")
 		var merr error
-		text, merr = topCodec.Marshal(pv.Interface())
+		text, merr = safeMarshal(pv.Interface())
 		got["merr"] = errText(merr)
 		if merr != nil {
 			return obj{"case": json.RawMessage(line), "got": got}
@@ -251,11 +271,22 @@ func runC05(i int, line []byte) (res interface{}) {
 			vio.Must(fmt.Errorf("printer produced invalid JSON: %s", text), "print json tree")
 		}
 	}
-	back, err := newValue(c.Root)
-	vio.Must(err, "root")
-	uerr := topCodec.Unmarshal(text, back.Interface())
-	got["uerr"] = errText(uerr)
-	got["un"] = []interface{}{syms.Read(back.Elem())}
+	// un = the result of every repetition (all decoded one after the other in this goroutine); uerr = the first error
+	reps := c.Reps
+	if reps < 1 {
+		reps = 1
+	}
+	uns := []interface{}{}
+	for k := 0; k < reps; k++ {
+		back, err := newValue(c.Root)
+		vio.Must(err, "root")
+		uerr := safeUnmarshal(text, back.Interface())
+		if uerr != nil && got["uerr"] == "" {
+			got["uerr"] = errText(uerr)
+		}
+		uns = append(uns, syms.Read(back.Elem()))
+	}
+	got["un"] = uns
 	if *dump {
 		got["text"] = string(text)
 	}
